@@ -15,8 +15,10 @@ from .frontend import AnalysisBroken, VERIF, REPO
 from .program import rel
 
 KNOWN = os.path.join(VERIF, 'known_findings.json')
-EVIDENCE = os.path.join(VERIF, 'evidence')
-OUT = os.path.join(VERIF, 'out')
+# the self-test runs checks on scratch copies and must not touch the real evidence
+_OUTDIR = os.environ.get('ZCSA_OUTDIR')
+EVIDENCE = os.path.join(_OUTDIR, 'evidence') if _OUTDIR else os.path.join(VERIF, 'evidence')
+OUT = os.path.join(_OUTDIR, 'out') if _OUTDIR else os.path.join(VERIF, 'out')
 
 
 class Finding(object):
